@@ -35,6 +35,8 @@ GOTO = "crates/ide/src/handlers/goto_definition.rs"
 REFS = "crates/ide/src/handlers/references.rs"
 VARIABLE = "crates/ide/src/symbol_map/variable.rs"
 COMPLETION = "crates/ide/src/handlers/completion.rs"
+DOCLINK = "crates/ide/src/handlers/document_link.rs"
+DIAGNOSTICS = "crates/ide/src/handlers/diagnostics.rs"
 # `ctx.complete_x()` of completion.rs: the vocabulary methods are read as TABLES by t_completion.py (GenCompletion.v)
 CTX_METHODS = {"complete_bang_operators": (0, "bang_operator_items"), "complete_toplevel_keywords": (0, "toplevel_keyword_items"),
                "complete_primitive_values": (0, "primitive_value_items"), "complete_primitive_types": (0, "primitive_type_items"),
@@ -192,7 +194,7 @@ class HP(BaseP):
                     self.eat()
             self.expect_p("|")
             if self.isp("{"):
-                self.err("closure with a block body")
+                return ("closure", pats, self.block(), tk.line)
             return ("closure", pats, self.expr(), tk.line)
         return BaseP.primary(self, ns)
 
@@ -287,7 +289,7 @@ SV_CTORS = [("Record", "record"), ("TemplateArgument", "targ"), ("RecordField", 
             ("Defset", "defset"), ("Multiclass", "multiclass"), ("Defm", "defm")]
 SM_EFFECT_METHODS = ("template_arg", "record_field", "record", "symbol", "iter_symbols_in_range", "find_symbol_at")
 IGNORED_MACROS = ("tracing",)
-RUST_TYPES = {"CompletionItem": "compitem", "FilePosition": "filepos", "Hover": "hover", "SymbolMap": "symmap", "Symbol": "symview", "dynIndexDatabase": "idb", "DocumentSymbol": "docsym",
+RUST_TYPES = {"DocumentLink": "doclink", "Diagnostic": "diag", "CompletionItem": "compitem", "FilePosition": "filepos", "Hover": "hover", "SymbolMap": "symmap", "Symbol": "symview", "dynIndexDatabase": "idb", "DocumentSymbol": "docsym",
               "FileRange": "filerange", "Record": "record", "RecordField": "field", "InlayHint": "hint",
               "SyntaxNode": "node", "SyntaxToken": "token", "SyntaxElement": "element", "TextRange": "range",
               "TextSize": "size", "String": "str", "str": "str", "FileId": "fileid", "dynSourceDatabase": "db",
@@ -303,6 +305,8 @@ def rust_type(t, fname, line):
     m = re.fullmatch(r"Vec<(.*)>", t)
     if m:
         return ("list", rust_type(m.group(1), fname, line))
+    if t == "HashMap<FileId,Vec<Diagnostic>>":
+        return "dmap"
     if t.startswith("(") and t.endswith(")"):
         parts, depth, cur = [], 0, ""
         for ch in t[1:-1]:
@@ -343,7 +347,9 @@ def coq_type(t):
         return {"symid": "symbol_id"}.get(t, "N")
     return {"symmap": "symbol_map", "symview": "symview", "idb": "index_db", "index": "index_db", "docsym": "docsym",
             "filerange": "file_range", "rkind": "option record_kind", "dskind": "ds_kind", "tytype": "name",
-            "hint": "hint", "hkind": "hint_kind", "filepos": "file_pos", "hover": "hover_result", "vkind": "unit", "compitem": "comp_item", "cctx": "list comp_item",
+            "hint": "hint", "hkind": "hint_kind", "filepos": "file_pos", "hover": "hover_result", "vkind": "unit", "compitem": "comp_item", "cctx": "list comp_item", "hdb": "host_db", "incmap": "list (rng * N)",
+            "hparse": "(tree * list perr)%type", "perr": "perr", "diag": "diag", "dmap": "dmap", "doclink": "(rng * N)%type",
+            "incid": "rng", "nodeptr": "rng", "msgtype": "text",
             "kind": "SyntaxKind", "range": "trange", "size": "N", "usize": "nat", "bool": "bool", "str": "text",
             "char": "N", "unit": "unit", "tree": "tree", "db": "parse_db", "fileid": "N"}[t]
 
@@ -428,6 +434,28 @@ class Emit:
         return "".join(l + "\n" for l in self.lines)
 
 
+class OptEmit(Emit):
+    """`?` inside an Option-valued closure: nested `match .. with Some x => .. | None => None end`"""
+    def bind(self, gen, mterm):
+        if not mterm.startswith("htry "):
+            raise TranslateError("effect other than `?` inside an Option-valued closure: %s" % mterm[:60])
+        v = gen.fresh()
+        self.lines.append(("opt", v, mterm[5:]))
+        return v
+
+    def let(self, name, term):
+        self.lines.append(("let", name, term))
+
+    def wrap(self, final):
+        out = final
+        for kind, v, t in reversed(self.lines):
+            if kind == "opt":
+                out = "match %s with\n| Some %s =>\n%s\n| None => None\nend" % (t, v, out)
+            else:
+                out = "let %s := %s in\n%s" % (v, t, out)
+        return out
+
+
 class Ctx:
     def __init__(self, fn, loop_state=None):
         self.fn = fn
@@ -458,7 +486,7 @@ class Gen:
             if x and x[0] == "closure":
                 return False          # a closure is a value; its own effects are handled where it is applied
             if x and x[0] == "mcall" and x[2] in ("map", "filter", "filter_map") and len(x[3]) == 1 \
-                    and x[3][0][0] == "closure" and self.has_effect(x[3][0][2]):
+                    and x[3][0][0] == "closure" and self.has_effect(x[3][0][2]) and not self.only_try(x[3][0][2]):
                 return True
             if x and x[0] == "mcall" and x[2] == "covering_element":
                 return True
@@ -472,6 +500,52 @@ class Gen:
         if isinstance(x, list):
             return any(self.has_effect(y) for y in x)
         return False
+
+    def only_try(self, x):
+        """the only control effect inside x is `?` (an Option-returning closure body rendered as nested matches)"""
+        if isinstance(x, tuple):
+            if x and x[0] == "try":
+                return self.only_try(x[1])
+            if x and x[0] in ("return", "break", "loop", "whilelet", "while", "for"):
+                return False
+            if x and x[0] == "closure":
+                return True
+            if x and x[0] == "mcall" and (x[2] == "covering_element" or (x[2] in SM_EFFECT_METHODS and len(x[3]) == 1)):
+                return False
+            if x and x[0] == "macro" and x[1] == ["unreachable"]:
+                return False
+            if x and x[0] == "call" and x[1][0] == "path" and (
+                    (x[1][1][-1] in self.fns and self.fns[x[1][1][-1]]["effect"]) or x[1][1][-1] == getattr(self, "cur_fn", None)):
+                return False
+            return all(self.only_try(y) for y in x)
+        if isinstance(x, list):
+            return all(self.only_try(y) for y in x)
+        return True
+
+    def opt_block(self, body, env, want=None):
+        """a block / expression whose `?`s return None from the enclosing Option-valued closure -> (pure option term, type)"""
+        em = OptEmit()
+        if body[0] == "block":
+            e2 = env
+            for st in body[1]:
+                if st[0] != "let" or st[4] is not None:
+                    self.fail(st[-1], "statement in an Option-valued closure body")
+                p = st[1]
+                while p[0] in ("pmut", "pref"):
+                    p = p[1]
+                if p[0] != "pbind":
+                    self.fail(st[5], "let pattern in an Option-valued closure body")
+                t, ty = self.tr(st[3], e2, em)
+                em.let(self.v(p[1]), t)
+                e2 = self.env_bind(e2, p[1], ty)
+            if body[2] is None:
+                self.fail("?", "closure body without a value")
+            t, ty = self.tr(body[2], e2, em, want)
+        else:
+            t, ty = self.tr(body, env, em, want)
+        if not (isinstance(ty, tuple) and ty[0] == "opt"):
+            self.fail("?", "a closure body using `?` must return an Option")
+        return em.wrap(t), ty
 
     def has_break(self, x):
         """a `break` that belongs to THIS loop body (not to a nested loop)"""
@@ -526,7 +600,7 @@ class Gen:
                 self.fail(x[4], "assignment to something that is not a local variable")
             self.assigned(x[3], local, acc)
             return
-        if k == "mcall" and (x[2] in ("push", "extend", "retain") or x[2] in CTX_METHODS) and x[1][0] == "path" and len(x[1][1]) == 1:
+        if k == "mcall" and (x[2] in ("push", "extend", "retain", "insert", "entry") or x[2] in CTX_METHODS) and x[1][0] == "path" and len(x[1][1]) == 1:
             if x[1][1][0] not in local:
                 acc.append(x[1][1][0])
             self.assigned(x[3], local, acc)
@@ -632,6 +706,12 @@ class Gen:
                 if ty != "range":
                     self.fail(e[3], "FoldingRange { range } of a non-range")
                 return "mk_folding_range %s" % atom(t), "range"
+            if e[1] == ["DocumentLink"] and [f for f, _ in e[2]] == ["range", "target"]:
+                a0, t0 = self.tr(e[2][0][1], env, em, "range")
+                a1, t1 = self.tr(e[2][1][1], env, em, "fileid")
+                if (t0, t1) != ("range", "fileid"):
+                    self.fail(e[3], "DocumentLink { range: %s, target: %s }" % (t0, t1))
+                return "mk_document_link %s %s" % (atom(a0), atom(a1)), "doclink"
             if e[1] == ["Hover"] and [f for f, _ in e[2]] == ["signature", "document"]:
                 a0, t0 = self.tr(e[2][0][1], env, em, "str")
                 a1, t1 = self.tr(e[2][1][1], env, em, ("opt", "str"))
@@ -743,8 +823,11 @@ class Gen:
         pats, body, line = cl[1], cl[2], cl[3]
         if len(pats) != len(argtys):
             self.fail(line, "closure arity")
+        optional = False
         if self.has_effect(body):
-            self.fail(line, "effect inside a closure")
+            if not self.only_try(body):
+                self.fail(line, "effect inside a closure")
+            optional = True
         e2 = env
         names = []
         for p, ty in zip(pats, argtys):
@@ -757,8 +840,13 @@ class Gen:
                 names.append("_")
             else:
                 self.fail(line, "closure parameter pattern")
-        t, ty = self.tr(body, e2, None, want)
-        return "(fun %s => %s)" % (" ".join(names), t), ty
+        if optional:
+            t, ty = self.opt_block(body, e2, want)
+        elif body[0] == "block":
+            t, ty = self.pure_control(body, e2, want)
+        else:
+            t, ty = self.tr(body, e2, None, want)
+        return "(fun %s =>\n%s)" % (" ".join(names), t), ty
 
     def tr_field(self, e, env, em):
         t, ty = self.tr(e[1], env, em)
@@ -780,6 +868,12 @@ class Gen:
                 return "fr_range %s" % a, "range"
             if f == "file":
                 return "fr_file %s" % a, "fileid"
+        if ty == "perr" and f == "range":
+            return "pe_range %s" % a, "range"
+        if ty == "perr" and f == "message":
+            return "pe_message %s" % a, "msgtype"
+        if ty == "diag" and f == "location":
+            return "dg_location %s" % a, "filerange"
         if ty == "field" and f == "parent":
             return "en_field_parent %s" % a, "recordid"
         if ty == "variable" and f == "kind":
@@ -850,6 +944,35 @@ class Gen:
             if (t0, t1, t2) != ("size", "str", "hkind"):
                 self.fail(line, "InlayHint::new(%s, %s, %s)" % (t0, t1, t2))
             return "mk_inlay_hint %s %s %s" % (atom(a0), atom(a1), atom(a2)), "hint"
+        if p == ["ast", "Include", "cast"] and len(args) == 1:
+            t, ty = self.tr(args[0], env, em, "node")
+            if ty != "node":
+                self.fail(line, "ast cast of a %s" % (ty,))
+            return "ast_cast S_Include %s" % atom(t), ("opt", ("ast", "Include"))
+        if p == ["SyntaxNodePtr", "new"] and len(args) == 1:
+            t, ty = self.tr(args[0], env, em, "node")
+            if ty != "node":
+                self.fail(line, "SyntaxNodePtr::new of a %s" % (ty,))
+            return "node_ptr %s" % atom(t), "nodeptr"
+        if p == ["IncludeId"] and len(args) == 1:
+            t, ty = self.tr(args[0], env, em, "nodeptr")
+            if ty != "nodeptr":
+                self.fail(line, "IncludeId of a %s" % (ty,))
+            return t, "incid"
+        if p == ["FileRange", "new"] and len(args) == 2:
+            a0, t0 = self.tr(args[0], env, em, "fileid")
+            a1, t1 = self.tr(args[1], env, em, "range")
+            if (t0, t1) != ("fileid", "range"):
+                self.fail(line, "FileRange::new(%s, %s)" % (t0, t1))
+            return "mk_file_range %s %s" % (atom(a0), atom(a1)), "filerange"
+        if p == ["Diagnostic", "new"] and len(args) == 2:
+            a0, t0 = self.tr(args[0], env, em, "filerange")
+            a1, t1 = self.tr(args[1], env, em, "str")
+            if (t0, t1) != ("filerange", "str"):
+                self.fail(line, "Diagnostic::new(%s, %s)" % (t0, t1))
+            return "mk_diagnostic %s %s" % (atom(a0), atom(a1)), "diag"
+        if p == ["HashMap", "new"] and not args:
+            return "[]", "dmap"
         if p == ["CompletionContext", "new"] and not args:
             return "[]", "cctx"
         if p == ["ast", "Type", "can_cast"] and len(args) == 1:
@@ -1014,6 +1137,34 @@ class Gen:
                 fn_, aty, rty = acc[m]
                 x, _ = arg(0, aty)
                 return em.bind(self, "hsres (%s %s %s)" % (fn_, a, x)), rty
+        if ty == "hdb":
+            if (m, n) == ("resolved_include_map", 1):
+                f, _ = arg(0, "fileid")
+                return "hdb_resolved_include_map %s %s" % (a, f), "incmap"
+            if (m, n) == ("parse", 1):
+                f, _ = arg(0, "fileid")
+                return "hdb_parse_of %s %s" % (a, f), "hparse"
+            if (m, n) == ("source_root", 0):
+                return "hdb_source_root %s" % a, "sroot"
+            if (m, n) == ("index", 0):
+                return "hdb_index %s" % a, "hindex"
+        if ty == "hparse" and (m, n) == ("syntax_node", 0):
+            return "hp_syntax_node %s" % a, "node"
+        if ty == "hparse" and (m, n) == ("errors", 0):
+            return "hp_errors %s" % a, ("list", "perr")
+        if ty == "sroot" and (m, n) == ("iter_files", 0):
+            return t, ("list", "fileid")
+        if ty == "hindex" and (m, n) == ("diagnostics", 0):
+            return t, ("list", "diag")
+        if ty == "incmap" and (m, n) == ("get", 1):
+            k, _ = arg(0, "incid")
+            return "incmap_get %s %s" % (a, k), ("opt", "fileid")
+        if ty == ("ast", "Include") and (m, n) == ("path", 0):
+            return "ast_field_child %s \"path\"%%string" % a, ("opt", ("ast", "String"))
+        if ty == "msgtype" and (m, n) == ("to_string", 0):
+            return t, "str"
+        if isinstance(ty, tuple) and ty[0] == "list" and (m, n) == ("cloned", 0):
+            return t, ty
         if ty == "cctx" and (m, n) == ("finish", 0):
             return t, ("list", "compitem")
         if ty == "node" and (m, n) == ("token_at_offset", 1):
@@ -1039,7 +1190,8 @@ class Gen:
             return "sid_of_record %s" % a, "symid"
         if isinstance(ty, tuple) and ty[0] == "list":
             el = ty[1]
-            if m in ("map", "filter", "filter_map") and n == 1 and args[0][0] == "closure" and self.has_effect(args[0][2]):
+            if m in ("map", "filter", "filter_map") and n == 1 and args[0][0] == "closure" and self.has_effect(args[0][2]) \
+                    and not self.only_try(args[0][2]):
                 if em is None:
                     self.fail(line, "effectful closure in a pure context")
                 f, rty = self.mclosure(args[0], [el], env, "bool" if m == "filter" else None)
@@ -1407,6 +1559,24 @@ class Gen:
                 if not self.diverges(els):
                     self.fail(line, "the else block of let-else does not diverge")
                 return em.prefix() + "match %s with\n| Some %s =>\n%s\n| None =>\n%s\nend" % (arms[1], arms[2], r, self.as_any(d)), rty
+            if p[0] == "pbind" and init[0] == "mcall" and init[2] == "or_insert_with" and init[1][0] == "mcall" \
+                    and init[1][2] == "entry" and init[1][1][0] == "path" and len(init[1][1][1]) == 1 \
+                    and env["vars"].get(init[1][1][1][0]) == "dmap" and len(init[1][3]) == 1 \
+                    and init[3] == [("path", ["Vec", "new"], init[3][0][2])] and i + 1 < len(stmts):
+                nxt = stmts[i + 1]
+                if not (nxt[0] == "expr" and nxt[1][0] == "mcall" and nxt[1][2] == "push"
+                        and nxt[1][1] == ("path", [p[1]], nxt[1][1][2]) and len(nxt[1][3]) == 1):
+                    self.fail(line, "`entry(..).or_insert_with(Vec::new)` must be followed by a push onto it")
+                if self.mentions(stmts[i + 2:], p[1]) or (tail is not None and self.mentions(tail, p[1])):
+                    self.fail(line, "the entry reference is used after the push")
+                mname = init[1][1][1][0]
+                em = Emit()
+                k_, kt = self.tr(init[1][3][0], env, em, "fileid")
+                x_, xt = self.tr(nxt[1][3][0], env, em, "diag")
+                if kt != "fileid" or xt != "diag":
+                    self.fail(line, "entry(%s) .. push(%s)" % (kt, xt))
+                r, rty = self.seq(stmts, i + 2, tail, env, ctx, end)
+                return em.prefix() + "let %s := hm_push %s %s %s in\n%s" % (self.v(mname), self.v(mname), atom(k_), atom(x_), r), rty
             if p[0] == "pbind":
                 em = Emit()
                 t, ty = self.tr(init, env, em)
@@ -1491,6 +1661,16 @@ class Gen:
                     nty = lty
                 r, rty2 = rest(self.env_bind(env, name, nty))
                 return em.prefix() + "let %s := %s in\n%s" % (self.v(name), new, r), rty2
+            if e[0] == "mcall" and e[2] == "insert" and e[1][0] == "path" and len(e[1][1]) == 1 \
+                    and env["vars"].get(e[1][1][0]) == "dmap" and len(e[3]) == 2:
+                name = e[1][1][0]
+                em = Emit()
+                k_, kt = self.tr(e[3][0], env, em, "fileid")
+                v_, vt = self.tr(e[3][1], env, em, ("list", "diag"))
+                if kt != "fileid" or not same(vt, ("list", "diag")):
+                    self.fail(line, "insert(%s, %s) into the diagnostics map" % (kt, vt))
+                r, rty2 = rest(env)
+                return em.prefix() + "let %s := hm_insert %s %s %s in\n%s" % (self.v(name), self.v(name), atom(k_), atom(v_), r), rty2
             if e[0] == "mcall" and e[2] in CTX_METHODS and e[1][0] == "path" and len(e[1][1]) == 1 \
                     and env["vars"].get(e[1][1][0]) == "cctx" and len(e[3]) == CTX_METHODS[e[2]][0]:
                 name = e[1][1][0]
@@ -1551,6 +1731,15 @@ class Gen:
             return em.prefix() + "%s <- hfor %s %s %s ;;\n%s%s" % (
                 out, atom(t), lam, tuple_term([self.v(n) for n in names]), self.rebind(names, out, env), r), rty
         self.fail(s[-1] if isinstance(s[-1], int) else "?", "unsupported statement %s" % k)
+
+    def mentions(self, x, name):
+        if isinstance(x, tuple):
+            if x and x[0] == "path" and x[1] == [name]:
+                return True
+            return any(self.mentions(y, name) for y in x)
+        if isinstance(x, list):
+            return any(self.mentions(y, name) for y in x)
+        return False
 
     def infer_elem(self, name, body):
         """element type of `let mut name = vec![]`: from the first `name.push(..)` / `name.extend(v)` in the fn body"""
@@ -1646,6 +1835,8 @@ class Gen:
         params = []
         for pn, pt in fn["params"]:
             ty = rust_type(pt, fn["file"], fn["line"])
+            if ty == "idb" and fn["file"] in (DOCLINK, DIAGNOSTICS):
+                ty = "hdb"          # these two handlers read other salsa queries: their database record is host_db
             env = self.env_bind(env, pn, ty)
             params.append((pn, ty))
         ret = rust_type(fn["ret"], fn["file"], fn["line"])
@@ -1775,7 +1966,30 @@ def translate(repo):
             "Open Scope N_scope.",
             "",
             g2.fn(parse_top_fn(repo, COMPLETION, "exec"), "src_completion_exec")]
-    return {"GenHandlers.v": "\n".join(out), "GenHandlersCompletion.v": "\n".join(out2)}
+    # document_link.rs / diagnostics.rs: their own file (cone: Includes.v, AstAccess.v)
+    for rel in (DOCLINK, DIAGNOSTICS):
+        got = top_fn_names(repo, rel)
+        if got != ["exec"]:
+            raise TranslateError("%s: top-level fns %s, expected ['exec']" % (rel, got))
+    src = cut_tests(strip_comments(read(repo, DIAGNOSTICS)))
+    m = re.search(r"impl\s+Diagnostic\s*\{(.*?)\n\}", src, re.S)
+    want = "pub fn new(location: FileRange, message: impl Into<String>) -> Self { Self { location, message: message.into(), } }"
+    if not m or " ".join(m.group(1).split()) != want:
+        raise TranslateError("%s: `impl Diagnostic { fn new .. }` is not the plain constructor the table entry Diagnostic::new stands for" % DIAGNOSTICS)
+    g3 = Gen(repo)
+    g3.fns["range_excluding_trivia"] = g.fns["range_excluding_trivia"]
+    out3 = ["(* GENERATED by tools/translate/t_handlers.py from %s (exec), %s (exec) -- do not edit *)" % (DOCLINK, DIAGNOSTICS),
+            "From Coq Require Import List NArith Bool String.",
+            "From TG.Gen Require Import GenTokens GenHandlers.",
+            "From TG.Model Require Import Chars Tree TreeNav SymbolMap Includes HandlerApi HandlerSymApi HandlerHostApi.",
+            "Import ListNotations.",
+            "Close Scope string_scope.",
+            "Open Scope N_scope.",
+            "",
+            g3.fn(parse_top_fn(repo, DOCLINK, "exec"), "src_document_link_exec")]
+    g3.fns.pop("exec", None)
+    out3.append(g3.fn(parse_top_fn(repo, DIAGNOSTICS, "exec"), "src_diagnostics_exec"))
+    return {"GenHandlers.v": "\n".join(out), "GenHandlersCompletion.v": "\n".join(out2), "GenHandlersHost.v": "\n".join(out3)}
 
 
 if __name__ == "__main__":
@@ -1783,3 +1997,4 @@ if __name__ == "__main__":
     r_ = translate(sys.argv[1] if len(sys.argv) > 1 else "/repo")
     print(r_["GenHandlers.v"])
     print(r_["GenHandlersCompletion.v"])
+    print(r_["GenHandlersHost.v"])
